@@ -1,4 +1,5 @@
 import Anysystem.Proofs.R5Defs
+import Anysystem.Proofs.R5SnapLemmas
 /-!
 # R5, piece 1 — the snapshot is related (`Sim'`, R2) to the reference state it stands for
 -/
@@ -6,8 +7,7 @@ namespace Anysystem
 
 variable {σ T : Type} [TimeOps T]
 
-/-- well-formedness of a simulator state, as far as the snapshot needs it (first draft; adjust as the proof requires,
-    keeping every clause a property of `q` alone that reachable simulator states have) -/
+/-- well-formedness of a simulator state, as far as the snapshot needs it; every clause is a property of `q` alone -/
 structure SnapWF (q : Sim σ T) : Prop where
   nodesSorted : KSorted q.nodes
   procsSorted : ∀ nd ∈ q.nodes, KSorted nd.2.procs
@@ -27,21 +27,322 @@ structure SnapWF (q : Sim σ T) : Prop where
     ∀ nd, amGet? sn q.nodes = some nd → nd.crashed = false
   idsNodup : (q.events.map (·.id)).Nodup
 
-/-- the snapshot of a well-formed simulator state never fails -/
-theorem snapshot_ok (bits : T → Nat) (q : Sim σ T) (hwf : SnapWF q) : ∃ s₀, snapshot bits q = .ok s₀ := sorry
+/-- the snapshot of a well-formed simulator state never fails (in fact: of any simulator state) -/
+theorem snapshot_ok (bits : T → Nat) (q : Sim σ T) (hwf : SnapWF q) : ∃ s₀, snapshot bits q = .ok s₀ := by
+  have _ := hwf
+  obtain ⟨st, a, hf, -⟩ := snapshotEvents_spec bits q (snapshotNet bits q).maxDelay
+  simp only [snapshot, hf]
+  exact ⟨_, rfl⟩
+
+/-! ### membership in the snapshot's node table -/
+
+omit [TimeOps T] in
+theorem mem_snapshotNodes {q : Sim σ T} {x : Nat × McNode σ} (h : x ∈ snapshotNodes q) :
+    ∃ nd ∈ q.nodes, x = (nd.1, cvNode nd.2) := by
+  rw [snapshotNodes_eq] at h
+  obtain ⟨nd, hnd, rfl⟩ := List.mem_map.mp h
+  exact ⟨nd, hnd, rfl⟩
+
+omit [TimeOps T] in
+theorem mem_cvNode_procs {nd : SNode σ T} {pe : Nat × ProcEntry σ} (h : pe ∈ (cvNode nd).procs) :
+    ∃ pe' ∈ nd.procs, pe = (pe'.1, cvProc pe'.2) := by
+  obtain ⟨pe', hpe', rfl⟩ := List.mem_map.mp h
+  exact ⟨pe', hpe', rfl⟩
+
+omit [TimeOps T] in
+/-- a node all of whose table entries are alive is not among the crashed nodes -/
+theorem not_mem_crashed {q : Sim σ T} (hnd : (q.nodes.map (·.1)).Nodup) {n : Nat}
+    (h : ∀ nd, amGet? n q.nodes = some nd → nd.crashed = false) :
+    n ∉ (q.nodes.filter (·.2.crashed)).map (·.1) := by
+  intro hm
+  obtain ⟨⟨n', nd⟩, hm', rfl⟩ := List.mem_map.mp hm
+  obtain ⟨hmem, hc⟩ := List.mem_filter.mp hm'
+  have := h nd (amGet?_of_mem_nodup hnd hmem)
+  simp only at hc
+  rw [this] at hc
+  cases hc
+
+theorem snapshotRef_procCrashed (bits : T → Nat) (q : Sim σ T) {p n : Nat}
+    (hp : amGet? p q.net.procLoc = some n) (hn : n ∉ (q.nodes.filter (·.2.crashed)).map (·.1)) :
+    (snapshotRef bits q).procCrashed p = false := by
+  simp only [RState.procCrashed, snapshotRef, snapshotNet_procLoc, hp]
+  simpa using hn
 
 /-- **the snapshot is `Sim'`-related to `snapshotRef`** -/
 theorem snapshot_sim' (bits : T → Nat) (q : Sim σ T) (s₀ : McSys σ) (hwf : SnapWF q)
-    (hsnap : snapshot bits q = .ok s₀) : Sim' s₀ (snapshotRef bits q) := sorry
+    (hsnap : snapshot bits q = .ok s₀) : Sim' s₀ (snapshotRef bits q) := by
+  have hu := snapshotPending_tuniq bits q hwf.idsNodup hwf.timerUniq
+  obtain ⟨st, a, hf, hrep, hp, -, htm⟩ := snapshotEvents_spec_tm bits q (snapshotNet bits q).maxDelay hu
+  have hpend : a.pending = snapshotPending bits q := hp
+  have hs₀ : s₀ = { nodes := snapshotNodes q, net := snapshotNet bits q, events := st, depth := 0, mode := .normal,
+                    trace := (List.range q.trace.length).map LogE.sim } := by
+    simp only [snapshot, hf] at hsnap
+    exact (Except.ok.inj hsnap).symm
+  have hN : s₀.nodes = snapshotNodes q := by rw [hs₀]
+  have hNet : s₀.net = snapshotNet bits q := by rw [hs₀]
+  have hE : s₀.events = st := by rw [hs₀]
+  have hT : s₀.trace = (List.range q.trace.length).map LogE.sim := by rw [hs₀]
+  clear hs₀
+  have hnodup : (q.nodes.map (·.1)).Nodup := hwf.nodesSorted.nodup
+  have hloc := snapshotNet_procLoc bits q
+  have hgetN : ∀ nd ∈ q.nodes, amGet? nd.1 q.nodes = some nd.2 := fun nd h => amGet?_of_mem_nodup hnodup h
+  have hgetP : ∀ nd ∈ q.nodes, ∀ pe ∈ nd.2.procs, amGet? pe.1 nd.2.procs = some pe.2 :=
+    fun nd h pe hpe => amGet?_of_mem_nodup (hwf.procsSorted nd h).nodup hpe
+  refine ⟨a, ⟨⟨⟨?_, ?_, ?_, ?_⟩, ⟨?_, ?_⟩, hE ▸ hrep, ?_, ?_, ?_, hNet.symm, ?_, ?_, ?_, ?_⟩, ?_, hT.symm, ?_⟩⟩
+  · -- nodes_nodup
+    rw [hN, snapshotNodes_eq, List.map_map]
+    exact hnodup
+  · -- procs_nodup
+    have : (procsOf s₀).map (·.1) = q.nodes.flatMap fun nd => nd.2.procs.map (·.1) := by
+      simp only [procsOf, hN, snapshotNodes_eq, List.map_flatMap, List.flatMap_map, cvNode, List.map_map,
+        Function.comp_def]
+    rw [this]
+    exact hwf.procsNodup
+  · -- loc_of_proc
+    intro x hx pe hpe
+    rw [hN] at hx
+    obtain ⟨nd, hnd, rfl⟩ := mem_snapshotNodes hx
+    obtain ⟨pe', hpe', rfl⟩ := mem_cvNode_procs hpe
+    show amGet? pe'.1 s₀.net.procLoc = some nd.1
+    rw [hNet, hloc]
+    exact hwf.loc nd.1 nd.2 pe'.1 pe'.2 (hgetN nd hnd) (hgetP nd hnd pe' hpe')
+  · -- proc_of_loc
+    intro p n h
+    rw [hNet, hloc] at h
+    obtain ⟨nd, e, hn, he⟩ := hwf.locBack p n h
+    refine ⟨cvNode nd, ?_, ?_⟩
+    · rw [hN, snapshotNodes_eq, amGet?_map_val_r4, hn]; rfl
+    · show (amGet? p (nd.procs.map fun pe => (pe.1, cvProc pe.2))).isSome = true
+      rw [amGet?_map_val_r4, he]; rfl
+  · -- nodes_sorted
+    rw [hN, snapshotNodes_eq]
+    exact hwf.nodesSorted.map_val _
+  · -- procs_sorted
+    intro x hx
+    rw [hN] at hx
+    obtain ⟨nd, hnd, rfl⟩ := mem_snapshotNodes hx
+    exact (hwf.procsSorted nd hnd).map_val _
+  · -- flights
+    rw [hpend]; rfl
+  · -- timers
+    rw [hpend]; rfl
+  · -- crashed
+    intro x hx
+    rw [hN] at hx
+    obtain ⟨nd, hnd, rfl⟩ := mem_snapshotNodes hx
+    show nd.2.crashed = true ↔ nd.1 ∈ (q.nodes.filter (·.2.crashed)).map (·.1)
+    constructor
+    · intro h
+      exact List.mem_map.mpr ⟨nd, List.mem_filter.mpr ⟨hnd, h⟩, rfl⟩
+    · intro h
+      obtain ⟨nd', hm', heq⟩ := List.mem_map.mp h
+      obtain ⟨hmem, hc⟩ := List.mem_filter.mp hm'
+      have h1 := hgetN nd' hmem
+      have h2 := hgetN nd hnd
+      rw [heq, h2] at h1
+      rw [Option.some.inj h1]
+      exact hc
+  · -- uniq
+    show (timersOf (snapshotPending bits q)).Pairwise _
+    exact hu
+  · -- tm
+    exact htm
+  · -- clean_msg
+    intro id m src dst o hx
+    rw [hpend] at hx
+    obtain ⟨e, he, hev⟩ := mem_snapshotPending hx
+    obtain ⟨mid, sn, dn, hd⟩ := snapshotEv_msg hev
+    obtain ⟨hlive, hkeep⟩ := (mem_snapshotSource q e).mp he
+    obtain ⟨h1, h2, h3⟩ := hwf.noCrashedSrc e hlive mid m src sn dst dn hd
+    exact ⟨snapshotRef_procCrashed bits q h1 (not_mem_crashed hnodup h3),
+      snapshotRef_procCrashed bits q h2 (hkeep mid m src sn dst dn hd)⟩
+  · -- clean_timer
+    intro id p name d hx
+    rw [hpend] at hx
+    obtain ⟨e, he, hev⟩ := mem_snapshotPending hx
+    have hd := snapshotEv_timer' hev
+    obtain ⟨hlive, -⟩ := (mem_snapshotSource q e).mp he
+    exact snapshotRef_procCrashed bits q (hwf.timerLoc e hlive p name hd)
+      (not_mem_crashed hnodup (hwf.noCrashedTimer e hlive p name hd))
+  · -- procs
+    simp only [snapshotRef, procsOf, hN, snapshotNodes_eq, List.flatMap_map, cvNode, cvProc, List.map_map, Function.comp_def]
+  · -- pend
+    intro x hx hcr pe hpe name
+    rw [hN] at hx
+    obtain ⟨nd, hnd, rfl⟩ := mem_snapshotNodes hx
+    obtain ⟨pe', hpe', rfl⟩ := mem_cvNode_procs hpe
+    rw [snapshotRef_timerPending,
+      ← hwf.pendMap nd.1 nd.2 pe'.1 pe'.2 (hgetN nd hnd) hcr (hgetP nd hnd pe' hpe') name]
+    show name ∈ pe'.2.pending.map (·.1) ↔ _
+    rw [← amGet?_isSome_iff, Option.isSome_iff_exists]
 
 /-- `run_impl` appends `McStarted` before exploring: the relation survives an extension of the trace on both sides -/
 theorem Sim'.appendTrace {s : McSys σ} {r : RState σ} (h : Sim' s r) (es : List LogE) :
-    Sim' { s with trace := s.trace ++ es } { r with trace := r.trace ++ es } := sorry
+    Sim' { s with trace := s.trace ++ es } { r with trace := r.trace ++ es } := by
+  obtain ⟨a, hw⟩ := h
+  have hc := hw.core
+  refine ⟨a, ⟨⟨⟨hc.topo.nodes_nodup, hc.topo.procs_nodup, hc.topo.loc_of_proc, hc.topo.proc_of_loc⟩,
+    ⟨hc.sorted.nodes_sorted, hc.sorted.procs_sorted⟩, hc.rep, hc.flights, hc.timers, hc.crashed, hc.net, hc.uniq,
+    hc.tm, hc.clean_msg, hc.clean_timer⟩, hw.procs, ?_, hw.pend⟩⟩
+  show r.trace ++ es = s.trace ++ es
+  rw [hw.trace]
 
 /-- the snapshot's handler addresses: `SendsKnown` for the snapshot follows from the simulator's process table -/
 theorem snapshot_sendsKnown (bits : T → Nat) (h : Handler σ) (q : Sim σ T) (s₀ : McSys σ)
     (hsnap : snapshot bits q = .ok s₀)
     (hk : ∀ p st i, ∀ a ∈ (h p st i).2, ∀ m dst, a = Action.send m dst → (amGet? dst q.net.procLoc).isSome = true) :
-    SendsKnown h s₀ := sorry
+    SendsKnown h s₀ := by
+  have hnet : s₀.net = snapshotNet bits q := by
+    obtain ⟨st, a, hf, -⟩ := snapshotEvents_spec bits q (snapshotNet bits q).maxDelay
+    simp only [snapshot, hf] at hsnap
+    rw [← Except.ok.inj hsnap]
+  intro p st i a ha m dst hm
+  rw [hnet, snapshotNet_procLoc]
+  exact hk p st i a ha m dst hm
+
+/-! ## Non-vacuity -/
+
+omit [TimeOps T] in
+/-- a quiet simulator state (empty queue, no pending timers on live nodes) with sorted node and process tables, unique
+    process names and a consistent `proc_locations` table is well-formed -/
+theorem snapWF_quiet (q : Sim σ T) (hev : q.events = [])
+    (hns : KSorted q.nodes) (hps : ∀ nd ∈ q.nodes, KSorted nd.2.procs)
+    (hnd : (q.nodes.flatMap fun nd => nd.2.procs.map (·.1)).Nodup)
+    (hloc : ∀ n nd p e, amGet? n q.nodes = some nd → amGet? p nd.procs = some e → amGet? p q.net.procLoc = some n)
+    (hback : ∀ p n, amGet? p q.net.procLoc = some n → ∃ nd e, amGet? n q.nodes = some nd ∧ amGet? p nd.procs = some e)
+    (hpend : ∀ n nd p e, amGet? n q.nodes = some nd → nd.crashed = false → amGet? p nd.procs = some e → e.pending = []) :
+    SnapWF q := by
+  have hlive : q.live = [] := by simp [Sim.live, hev]
+  refine ⟨hns, hps, hnd, hloc, hback, ?_, ?_, ?_, ?_, ?_, ?_⟩
+  · intro e he; rw [hlive] at he; cases he
+  · intro e he; rw [hlive] at he; cases he
+  · intro n nd p e hn hc hp name
+    rw [hpend n nd p e hn hc hp, hlive]
+    constructor
+    · rintro ⟨id, h⟩; cases h
+    · rintro ⟨ev, h, _⟩; cases h
+  · intro e he; rw [hlive] at he; cases he
+  · intro e he; rw [hlive] at he; cases he
+  · rw [hev]; exact List.nodup_nil
+
+theorem amGet?_singleton {β : Type} {k n : Nat} {v x : β} (h : amGet? n [(k, v)] = some x) : n = k ∧ x = v := by
+  simp only [amGet?] at h
+  split at h
+  · exact ⟨by assumption, (Option.some.inj h).symm⟩
+  · cases h
+
+namespace R5Demo
+
+open R4Demo
+
+/-- the quiet state `q0` of `R4Demo` (node 0 hosts process 1, empty queue) is well-formed, by `snapWF_quiet` -/
+theorem q0_wf : SnapWF q0 := by
+  refine snapWF_quiet q0 rfl (List.pairwise_singleton _ _) ?_ (by decide) ?_ ?_ ?_
+  · intro nd h
+    have : nd = (0, { skew := ⟨0⟩, procs := [(1, { st := 0 })] }) := by simpa [q0] using h
+    subst this
+    exact List.pairwise_singleton _ _
+  · intro n nd p e hn hp
+    obtain ⟨rfl, rfl⟩ := q0_nodes n nd hn
+    obtain ⟨rfl, rfl⟩ := q0_procs p e hp
+    rfl
+  · intro p n h
+    obtain ⟨rfl, rfl⟩ := amGet?_singleton (show amGet? p [(1, 0)] = some n from h)
+    exact ⟨_, _, rfl, rfl⟩
+  · intro n nd p e hn _ hp
+    obtain ⟨rfl, rfl⟩ := q0_nodes n nd hn
+    obtain ⟨rfl, rfl⟩ := q0_procs p e hp
+    rfl
+
+/-- the process entry, the node, and the two queued events of `q1` -/
+def pe1 : SProc Nat Ticks :=
+  { st := 0, log := [⟨⟨0⟩, .tset 1 5 false⟩, ⟨⟨0⟩, .sent ⟨0, []⟩ 1 1⟩], pending := [(1, 0)], sent := 1 }
+def nd1 : SNode Nat Ticks := { skew := ⟨0⟩, procs := [(1, pe1)] }
+def e0 : QEv Ticks := ⟨0, ⟨5⟩, 0, 0, .timer 1 1⟩
+def e1 : QEv Ticks := ⟨1, ⟨0⟩, 0, 0, .msg 0 ⟨0, []⟩ 1 0 1 0⟩
+
+theorem q1_nodes : q1.nodes = [(0, nd1)] := rfl
+theorem q1_events : q1.events = [e0, e1] := rfl
+theorem q1_live : q1.live = [e0, e1] := rfl
+theorem q1_loc : q1.net.procLoc = [(1, 0)] := rfl
+
+theorem mem_q1_live {e : QEv Ticks} (h : e ∈ q1.live) : e = e0 ∨ e = e1 := by
+  rw [q1_live] at h
+  simpa using h
+
+/-- **non-vacuity**: `q1` of `R4Demo` — one process on node 0 with one queued timer (id 0) and one queued message
+    to itself (id 1), built by `Sim.handleActions` from the quiet state `q0` — is well-formed -/
+theorem q1_wf : SnapWF q1 := by
+  refine ⟨?_, ?_, ?_, ?_, ?_, ?_, ?_, ?_, ?_, ?_, ?_⟩
+  · rw [q1_nodes]; exact List.pairwise_singleton _ _
+  · intro nd h
+    rw [q1_nodes, List.mem_singleton] at h
+    subst h
+    exact List.pairwise_singleton _ _
+  · rw [q1_nodes]; decide
+  · intro n nd p e hn hp
+    rw [q1_nodes] at hn
+    obtain ⟨rfl, rfl⟩ := amGet?_singleton hn
+    obtain ⟨rfl, rfl⟩ := amGet?_singleton (show amGet? p [(1, pe1)] = some e from hp)
+    rfl
+  · intro p n h
+    rw [q1_loc] at h
+    obtain ⟨rfl, rfl⟩ := amGet?_singleton h
+    exact ⟨nd1, pe1, rfl, rfl⟩
+  · intro e he p name hd
+    rcases mem_q1_live he with rfl | rfl
+    · cases hd; rfl
+    · cases hd
+  · intro a ha b hb p name hda hdb
+    rcases mem_q1_live ha with rfl | rfl <;> rcases mem_q1_live hb with rfl | rfl
+    · rfl
+    · cases hdb
+    · cases hda
+    · cases hda
+  · intro n nd p e hn _ hp name
+    rw [q1_nodes] at hn
+    obtain ⟨rfl, rfl⟩ := amGet?_singleton hn
+    obtain ⟨rfl, rfl⟩ := amGet?_singleton (show amGet? p [(1, pe1)] = some e from hp)
+    constructor
+    · rintro ⟨id, h⟩
+      obtain ⟨rfl, rfl⟩ := amGet?_singleton (show amGet? name [(1, 0)] = some id from h)
+      exact ⟨e0, by rw [q1_live]; simp, rfl⟩
+    · rintro ⟨ev, hev, hd⟩
+      rcases mem_q1_live hev with rfl | rfl
+      · cases hd; exact ⟨0, rfl⟩
+      · cases hd
+  · intro e he p name hd nd hn
+    rcases mem_q1_live he with rfl | rfl
+    · rw [q1_nodes] at hn
+      obtain ⟨-, rfl⟩ := amGet?_singleton (show amGet? 0 [(0, nd1)] = some nd from hn)
+      rfl
+    · cases hd
+  · intro e he mid m src sn dst dn hd
+    rcases mem_q1_live he with rfl | rfl
+    · cases hd
+    · cases hd
+      refine ⟨rfl, rfl, ?_⟩
+      intro nd hn
+      rw [q1_nodes] at hn
+      obtain ⟨-, rfl⟩ := amGet?_singleton hn
+      rfl
+  · rw [q1_events]; decide
+
+/-- the main theorem applied to the demo state: the snapshot exists, holds the message and the timer, and is related
+    to `snapshotRef` -/
+example : ∃ s₀, snapshot bitsT q1 = .ok s₀ ∧ Sim' s₀ (snapshotRef bitsT q1) ∧
+    (snapshotRef bitsT q1).flights = [⟨⟨0, []⟩, 1, 1, .noFail 0⟩] ∧ (snapshotRef bitsT q1).timers = [⟨1, 1, 5⟩] := by
+  obtain ⟨s₀, h⟩ := snapshot_ok bitsT q1 q1_wf
+  exact ⟨s₀, h, snapshot_sim' bitsT q1 s₀ q1_wf h, by decide, by decide⟩
+
+/-- a caveat on reachability, kernel-checked: between `recover_node` and the re-`add_process` the clause `locBack`
+    does NOT hold (`recoverNode` empties the node's process table but leaves `proc_locations` alone).  The clause
+    cannot be dropped: `WFTopo.proc_of_loc` (part of `Sim'`) is exactly this statement about the snapshot, so for such
+    a state `Sim' s₀ r` is false for every `r`. -/
+example : ∃ q : Sim Nat Ticks, (q0.crashNode 0 >>= fun s => s.recoverNode 0) = .ok q ∧
+    amGet? 1 q.net.procLoc = some 0 ∧ (amGet? 0 q.nodes).map (fun nd => nd.procs.length) = some 0 :=
+  ⟨_, rfl, rfl, rfl⟩
+
+end R5Demo
 
 end Anysystem
